@@ -384,6 +384,38 @@ def run(repo: Repo, chk: Check, thorough: bool = False) -> None:
            "the text between repr()'s own quotes is reused inside single quotes: for b\"it's\" repr() uses double quotes and leaves the ' bare, the value is "
            "displayed as b'it's' - not the same expression, not even valid Python", be.loc)
 
+    # live numbers: a float is shown through str(); an overflowing literal (1e999) is the float `inf`, and str() gives `inf`, which reads back
+    # as a name, not a number - the float branch must not print str(value) as is
+    cz = repo.func(f'{COL}._colorize')
+    cfz = CFG(cz)
+    pv = cz.params()[1].arg
+    n_fl = 0
+    for c in calls_in(cz, lambda c: call_name(c) == '_output' and c.args):
+        facts = cfz.dominating_tests(cfz.stmt_of(c))
+        is_float_branch = any(pol and any(isinstance(x, ast.Name) and x.id in ('float', 'complex') for x in ast.walk(t)) for t, pol in facts)
+        if not is_float_branch:
+            continue
+        n_fl += 1
+        bare = isinstance(c.args[0], ast.Call) and call_name(c.args[0]) in ('str', 'repr') and len(c.args[0].args) == 1 and norm(c.args[0].args[0]) == pv
+        chk.ob('R15.6', f'{COL}._colorize :: a non-finite float is not printed as a name', not bare,
+               f'`{norm(c.args[0])[:60]}`' if not bare else
+               f'`{norm(c.args[0])}` prints the float `inf` (what the literal 1e999 evaluates to) as `inf` / `-inf` / `infj`: read back, that is an undefined name', repo.loc(cz.mod, c))
+    if n_fl < 1:
+        raise AnalysisError('R15.6: the float branch of PyvalColorizer._colorize was not found')
+
+    # regular expressions: a literal `-` between two members of a character set must stay escaped, or the set reads as a range
+    rt = repo.func(f'{COL}._colorize_re_tree')
+    esc_sets = [n for n in rt.walk() if isinstance(n, ast.Compare) and len(n.ops) == 1 and isinstance(n.ops[0], ast.In) and
+                isinstance(n.comparators[0], ast.Constant) and isinstance(n.comparators[0].value, str) and '\\' in n.comparators[0].value and '[' in n.comparators[0].value]
+    if not esc_sets:
+        raise AnalysisError('R15.6: the list of characters _colorize_re_tree escapes in a LITERAL was not found')
+    hy = any('-' in n.comparators[0].value for n in esc_sets) or \
+        any(isinstance(n, ast.Compare) and len(n.ops) == 1 and isinstance(n.ops[0], ast.Eq) and const_str(n.comparators[0]) == '-' for n in rt.walk())
+    chk.ob('R15.6', f'{COL}._colorize_re_tree :: a literal hyphen in a character set stays escaped', hy,
+           'escaped (at least inside sets)' if hy else
+           "`-` is not among the escaped characters and the same code renders set members: re.compile(r'[a\\-z]') is displayed as r'[a-z]' (26 letters "
+           "instead of 3 characters), r'[+\\-*/]' as r'[\\+-\\*/]' (not a valid pattern)", rt.loc)
+
     # ------------------------------------------------------------------ R15.7 string arguments of Literal[...] stay strings
     # unstring_annotation turns 'X' into X everywhere except inside Literal[...]: there a string IS the value.  Literal is recognised
     # by its last component, whatever the qualifier (typing.Literal, typing_extensions.Literal, t.Literal)
@@ -416,7 +448,21 @@ def run(repo: Repo, chk: Check, thorough: bool = False) -> None:
            "bare name `Literal` and any `<qualifier>.Literal` keep their string arguments" if name_ok and attr_ok else
            f'Literal is only recognised under `{restricted[0] if restricted else "?"}`: for other spellings (typing_extensions.Literal, t.Literal) the string '
            "arguments are parsed as code, `Literal['a']` is displayed as `Literal[a]`", vs.loc)
-    chk.require('R15.7', 1)
+    # Annotated[T, metadata...]: only T is a type; the metadata are arbitrary values, a string there IS a string
+    ann_branch = False
+    for n in vs.walk():
+        if isinstance(n, ast.Compare) and len(n.ops) == 1 and isinstance(n.ops[0], ast.Eq) and const_str(n.comparators[0]) == 'Annotated' and \
+                isinstance(n.left, ast.Attribute) and n.left.attr in ('id', 'attr'):
+            ann_branch = True
+        if isinstance(n, ast.Compare) and isinstance(n.left, ast.Subscript) and norm(n.left.slice) == '-1' and any(const_str(c) == 'Annotated' for c in n.comparators):
+            ann_branch = True
+    first_only = any(isinstance(x, ast.Call) and call_name(x) == 'visit' and x.args and isinstance(x.args[0], ast.Subscript) and
+                     isinstance(x.args[0].value, ast.Attribute) and x.args[0].value.attr == 'elts' and norm(x.args[0].slice) == '0' for x in vs.walk())
+    chk.ob('R15.7', 'astutils._AnnotationStringParser.visit_Subscript :: the metadata of Annotated[...] keep their strings', ann_branch and first_only,
+           'only the first argument of Annotated[...] is unstringed' if ann_branch and first_only else
+           'Annotated is treated like any other subscript, every string in it is parsed as code: `Annotated[float, "meters"]` is displayed as '
+           '`Annotated[float, meters]`, `Field(alias="id")` as `Field(alias=id)`', vs.loc)
+    chk.require('R15.7', 2)
 
 
 def _reads_back(esc: str) -> Optional[str]:
